@@ -4,6 +4,7 @@ pub mod c06;
 pub mod c12;
 pub mod c13;
 pub mod c14;
+pub mod c17;
 pub mod mb;
 pub mod mbchecks;
 
@@ -201,6 +202,14 @@ pub fn all() -> Vec<CheckDef> {
             rule: "create/use/empty/recreate cycles with PART, KICK, QUIT, drop, KILL in any order over 3-4 users, max_joins quota, 0-3 predefined channels with random topic/flags/key/limit/mask lists/rank lists; oracle = lifecycle rules of the statement via 353 prefixes, 324, LIST, LUSERS 254, 403, 331/332; non-trivial = >=2 channel creations and >=1 departure; distinct by (creations, departures, departure kinds, predefined involved)",
             level: "exploration",
             assumptions: SIM_ASSUMPTIONS,
+        },
+        CheckDef {
+            id: "C17",
+            run: c17::run,
+            replay: c17::replay,
+            rule: "worlds with ping_timeout p in {1..200 s} and pong_timeout q with q<p, q=p, q>p; 1-4 clients each with a response pattern (always, always with another token, never, stops after k=1..5 answers) plus unrelated traffic (own PINGs with tokens, PRIVMSGs); 4-11 ping cycles in virtual time; oracle = PONG echoes the token; server PINGs at registration + i*p; responders never closed; a client silent from its k-th PING on gets ERROR and EOF by t_k + q + one simulation step; non-trivial = client with >= 2 PING cycles that is not a plain responder under q<p; distinct by (relation, pattern class, k)",
+            level: "exploration",
+            assumptions: &["Tokio paused clock (virtual time) on a single-threaded runtime; the simulation step (min(p,q)/4, 100..1000 ms) is the timing tolerance", "no real-time tier"],
         },
         CheckDef {
             id: "C19",
